@@ -223,7 +223,7 @@ def _expand(task, cfg, srv, w):
                 seen.add(kh)
             rec.update({'key': kh, 'dumph': keyhash(canon), 'M': Mn, 'old': nold, 'cur': ncur, 'serial': core['serial'],
                         'V': V, 'W': W, 'out': r.out, 'kinds': tuple(l.split(' ')[0] for l in r.out),
-                        'timers': {d['id']: d['timer'] for d in r.dump if d['t'] == 'req'}})
+                        'timers': {d['id']: d['timer'] for d in r.dump if d['t'] == 'req'}, 'orphans': core['orphan_timers']})
         out.append(rec)
     return {'sid': sid, 'results': out}
 
@@ -264,7 +264,7 @@ def _first_diff(a, b, path=''):
 
 # ---- coordinator -----------------------------------------------------------------------------------
 class State:
-    __slots__ = ('parent', 'ev', 'cev', 'out', 'depth', 'M', 'old', 'cur', 'serial', 'dumph', 'timers', 'key')
+    __slots__ = ('parent', 'ev', 'cev', 'out', 'depth', 'M', 'old', 'cur', 'serial', 'dumph', 'timers', 'key', 'orphans')
 
 
 class Search:
@@ -348,6 +348,7 @@ class Search:
         st.ev, st.cev, st.out = rec.get('ev'), rec.get('cev'), rec.get('out')
         st.depth = 0 if parent is None else self.states[parent].depth + 1
         st.M, st.old, st.cur, st.serial, st.dumph, st.timers, st.key = rec['M'], rec['old'], rec['cur'], rec['serial'], rec['dumph'], rec['timers'], rec['key']
+        st.orphans = rec.get('orphans', 0)
         self.states.append(st)
         self.index[rec['key']] = len(self.states) - 1
         self.depth_hist[st.depth] = self.depth_hist.get(st.depth, 0) + 1
